@@ -128,6 +128,34 @@ def session(detail_rhs=False):
         _CUR[0] = prev
 
 
+class wall_clock(object):
+    """Run-away executions that call no user code at all (a loop inside the library that never ends) are cut by the clock: after
+    `limit` seconds of wall time inside one API call BudgetExceeded is raised from a SIGALRM handler (worker processes run the
+    scenarios in their main thread).  The limit is two orders of magnitude above what a scenario needs on a loaded machine."""
+    def __init__(self, limit=240.0):
+        self.limit = limit
+
+    def __enter__(self):
+        import signal
+
+        def handler(signum, frame):
+            raise BudgetExceeded("more than %g s of wall time inside one call" % self.limit)
+        try:
+            self.prev = signal.signal(signal.SIGALRM, handler)
+            signal.setitimer(signal.ITIMER_REAL, self.limit)
+            self.armed = True
+        except ValueError:          # not in the main thread
+            self.armed = False
+        return self
+
+    def __exit__(self, *exc):
+        import signal
+        if self.armed:
+            signal.setitimer(signal.ITIMER_REAL, 0.0)
+            signal.signal(signal.SIGALRM, self.prev)
+        return False
+
+
 class BudgetExceeded(BaseException):
     """Raised by the wrapped right-hand side when a scenario uses far more evaluations than the unmodified
     library needs (a run-away execution).  A BaseException so that integrate() does not wrap it."""
